@@ -37,6 +37,17 @@ def gen(rnd, tier):
             for fin in ([[120], []], [[120, 121, 122]] * (h + 1) + [[]], []):
                 cases.append({"w0": w, "h0": h, "history": [], "used": 0,
                               "ops": ops[:3] + [{"op": "write", "s": R.join_view(fin)}, {"op": "stop"}]})
+    # the last view written is the one that is ALREADY on the screen, after a different view was written and not yet
+    # painted (A painted, B written, A written again, quit / next tick): the pending B must not come back
+    for w, h in ((10, 4), (8, 3)):
+        for alt in (False, True):
+            for tail in ("stop", "flush-stop"):
+                a = [[106, 111, 98, 58, 32, 105, 100, 108, 101], [120], []]      # "job: idle" / "x" / ""
+                b = [[106, 111, 98, 58, 32, 98, 117, 115, 121], [120], []]       # "job: busy" / "x" / ""
+                ops = [{"op": "resize", "w": w, "h": h}] + ([{"op": "enteralt"}] if alt else []) + \
+                      [{"op": "write", "s": R.join_view(a)}, {"op": "flush"}, {"op": "write", "s": R.join_view(b)}, {"op": "write", "s": R.join_view(a)}]
+                ops += [{"op": "flush"}, {"op": "write", "s": R.join_view(a)}, {"op": "stop"}] if tail == "flush-stop" else [{"op": "stop"}]
+                cases.append({"w0": w, "h0": h, "history": [[46] * w], "used": 1, "ops": ops})
     return cases
 
 
